@@ -220,7 +220,7 @@ macro_rules! wide_shifts {
 wide_shifts!(c05_uint1_wide_shifts, 1);
 //@ name=c05_uint2_wide_shifts prop=C05,C11 tier=quick profile=k64 funcs="Uint::overflowing_shl_vartime_wide,Uint::overflowing_shr_vartime_wide" bound="Uint<2> pairs, all values, every shift != 0" free_bits=296 assumes="shift != 0 (shift == 0 isolated in c05_wide_shift_zero)"
 wide_shifts!(c05_uint2_wide_shifts, 2);
-//@ name=c05_uint3_wide_shifts prop=C05,C11 tier=thorough profile=k64 funcs="Uint::overflowing_shl_vartime_wide,Uint::overflowing_shr_vartime_wide" bound="Uint<3> pairs, all values, every shift != 0" free_bits=425 assumes="shift != 0 (shift == 0 isolated in c05_wide_shift_zero)"
+//@ name=c05_uint3_wide_shifts prop=C05,C11 tier=quick profile=k64 funcs="Uint::overflowing_shl_vartime_wide,Uint::overflowing_shr_vartime_wide" bound="Uint<3> pairs, all values, every shift != 0" free_bits=425 assumes="shift != 0 (shift == 0 isolated in c05_wide_shift_zero)"
 wide_shifts!(c05_uint3_wide_shifts, 3);
 
 //@ prop=C05,C11 tier=quick profile=k64 funcs="Uint::overflowing_shl_vartime_wide,Uint::overflowing_shr_vartime_wide" bound="Uint<2> pairs, all values, shift == 0: must return the input unchanged without panicking" free_bits=256 expect=finding:wide_shift_zero core=C11
